@@ -281,12 +281,13 @@ type catEngine struct {
 	fsys fs.FS
 	base vuego.Template
 	vue  *vuego.Vue
+	nofs vuego.Template // an engine without a filesystem (vuego.New)
 }
 
 func newCatEngine(fsys fs.FS) *catEngine {
 	vue := vuego.NewVue(fsys).Funcs(catFuncs())
 	vue.RegisterNodeProcessor(vuego.NewLessProcessor(fsys))
-	return &catEngine{fsys: fsys, base: vuego.NewFS(fsys, vuego.WithFuncs(catFuncs()), vuego.WithLessProcessor()), vue: vue}
+	return &catEngine{fsys: fsys, base: vuego.NewFS(fsys, vuego.WithFuncs(catFuncs()), vuego.WithLessProcessor()), vue: vue, nofs: vuego.New(vuego.WithFuncs(catFuncs()))}
 }
 
 // newCatEnginePlain: engines without any node processor, with component shorthand tags
@@ -294,7 +295,7 @@ func newCatEngine(fsys fs.FS) *catEngine {
 func newCatEnginePlain(fsys fs.FS) *catEngine {
 	vue := vuego.NewVue(fsys).Funcs(catFuncs())
 	vue.RegisterComponent("cat-panel", "components/CatPanel.vuego").RegisterComponent("cat-chip", "components/CatChip.vuego")
-	return &catEngine{fsys: fsys, base: vuego.NewFS(fsys, vuego.WithFuncs(catFuncs()), vuego.WithComponents()), vue: vue}
+	return &catEngine{fsys: fsys, base: vuego.NewFS(fsys, vuego.WithFuncs(catFuncs()), vuego.WithComponents()), vue: vue, nofs: vuego.New(vuego.WithFuncs(catFuncs()))}
 }
 
 var catEntryPoints = []string{"load-render", "renderfile", "vue-render", "vue-fragment"}
@@ -303,6 +304,11 @@ var catEntryPoints = []string{"load-render", "renderfile", "vue-render", "vue-fr
 func (e *catEngine) run(p *Prog, ep string, data any) (string, error) {
 	var b bytes.Buffer
 	var err error
+	if p.Mode == "nofs-assign" {
+		// a request on an engine without a filesystem: the caller's (possibly shared) data, then a value of the request's own
+		err = e.nofs.New().Fill(data).Assign("lk_assigned", p.Entry).RenderString(bg, &b, p.Str)
+		return b.String(), err
+	}
 	if p.Mode == "base-string" {
 		// straight on the shared base template, with the variables it was set up with
 		// ("a single base template may be used from any number of goroutines at once")
